@@ -23,6 +23,17 @@ fn is_overflow(msg: &str) -> bool {
 /// Workload mix: C01 space, C04's single-file/frequent-sync shape, and small archives whose
 /// prefixes are opened (C14 space, a sample of prefixes per archive).
 fn spec_for(base_seed: u64, index: u64) -> (PipeSpec, &'static str) {
+    let (mut spec, kind) = spec_for_base(base_seed, index);
+    // parameters beyond the usual range (own stream): the command line accepts any -m, and
+    // match lengths above 32 reach shift/mask arithmetic that 15..32 never does
+    let mut r = crate::seed::Rng::new(seed::run_seed(base_seed ^ 0xC18, index) ^ 0x4D4D);
+    if r.pct(8) {
+        spec.cfg.min_match_len = *r.pick(&[33u32, 34, 35, 36, 37, 40, 48, 64]);
+    }
+    (spec, kind)
+}
+
+fn spec_for_base(base_seed: u64, index: u64) -> (PipeSpec, &'static str) {
     let rs = seed::run_seed(base_seed ^ 0xC18, index);
     match index % 8 {
         0 | 1 | 4 => (pipeline::generate(rs), "c01"),
